@@ -96,20 +96,42 @@ def _hdf5_call(variant, path, h, axis, ids):
     raise ValueError(variant)
 
 
-def evaluate_hdf5(case):
+def evaluate_hdf5(case, until=None):
     import h5py
     t = U.build(case)
     axis = case['axis']
     gen = U.GENERATED_BY[case.get('gen', 'plain')]
     per = {v: {} for v in HDF5_VARIANTS}       # variant -> clause -> first record
-    count = 0
 
     def note(variant, rec, req):
         if rec['clause'] not in per[variant]:
             rec = dict(rec)
             rec['observed'] = {'request': req, 'got': rec['observed']}
             per[variant][rec['clause']] = rec
+            if until == (rec['clause'], variant) and not (
+                    variant in ('parse_table', 'subset_table') and rec['clause'] in per['from_hdf5']):
+                raise U.Found()
 
+    try:
+        _evaluate_hdf5_body(case, t, axis, gen, note)
+    except U.Found:
+        pass
+    fails = []
+    for variant in HDF5_VARIANTS:
+        for clause, rec in per[variant].items():
+            if variant in ('parse_table', 'subset_table') and clause in per['from_hdf5']:
+                continue                      # delegates to from_hdf5: same failure
+            fails.append(U.raw(clause, rec['expected'], rec['observed'], variant))
+    return fails
+
+
+evaluate_hdf5.supports_until = True
+evaluate_hdf5.count = 0
+
+
+def _evaluate_hdf5_body(case, t, axis, gen, note):
+    import h5py
+    count = 0
     with U.tmpdir() as d:
         path = os.path.join(d, 'table.biom')
         with h5py.File(path, 'w') as h:
@@ -137,23 +159,15 @@ def evaluate_hdf5(case):
                         note(variant, f, ids)
             # requests naming an unknown ID are refused
             for req in ([UNKNOWN], [all_ids[0], UNKNOWN], [UNKNOWN] + list(all_ids)):
-                if True:
-                    for variant in HDF5_VARIANTS:
-                        count += 1
-                        try:
-                            res = _hdf5_call(variant, path, h, axis, req)
-                        except Exception:
-                            continue
-                        note(variant, U.raw('unknown-id-refused', 'an exception',
-                                            'returned a %s table' % (tuple(res._data.shape),)), req)
-    fails = []
-    for variant in HDF5_VARIANTS:
-        for clause, rec in per[variant].items():
-            if variant in ('parse_table', 'subset_table') and clause in per['from_hdf5']:
-                continue                      # delegates to from_hdf5: same failure
-            fails.append(U.raw(clause, rec['expected'], rec['observed'], variant))
+                for variant in HDF5_VARIANTS:
+                    count += 1
+                    try:
+                        res = _hdf5_call(variant, path, h, axis, req)
+                    except Exception:
+                        continue
+                    note(variant, U.raw('unknown-id-refused', 'an exception',
+                                        'returned a %s table' % (tuple(res._data.shape),)), req)
     evaluate_hdf5.count = count
-    return fails
 
 
 def run_hdf5_case(case):
@@ -261,7 +275,7 @@ def evaluate_json(case):
             note('slicer', form, U.raw('unknown-id-refused', 'an exception', 'returned a document'), req)
     fails = []
     for (kind, clause), d in seen.items():
-        rec = next(iter(d.values()))
+        rec = d.get('written') or next(iter(d.values()))
         tag = kind
         if kind == 'slicer':
             tag += '[' + atag + ']'
@@ -444,7 +458,7 @@ SCOPES = {'hdf5-subset': run_hdf5_case, 'json-subset': run_json_case, 'subset-cl
 def _states(tier, seed):
     q = tier == 'quick'
     k = 0
-    for st in U.base_states(tier, seed, small_only=q):
+    for st in U.base_states(tier, seed, small_only=True):
         k += 1
         A = np.asarray(st['A'])
         if A.shape[0] * A.shape[1] > 9:
@@ -452,6 +466,11 @@ def _states(tier, seed):
         if q and max(A.shape) <= 2 and (st['layout'], st['zeros']) != (rt.LAYOUTS[_h(A) % 3], _zmode(A)):
             continue          # quick: one layout / stored-zero mode per exhaustive matrix, rotated
         yield st
+    if not q:
+        # thorough: every 2x3 / 3x2 matrix over {0,1,2} and every 3x3 over {0,1}, layout and zero mode rotated
+        for vals, shapes in (((0, 1, 2), [(2, 3), (3, 2)]), ((0, 1), [(3, 3)])):
+            for A in rt.matrices(0, 0, values=vals, shapes=shapes):
+                yield {'A': A.tolist(), 'layout': rt.LAYOUTS[_h(A) % 3], 'zeros': _zmode(A)}
     for st in U.rich_states(tier):
         k += 1
         if q and k % 2:
@@ -461,7 +480,7 @@ def _states(tier, seed):
         yield st
     for st in U.history_states(tier, seed):
         k += 1
-        if (q and k % 3) or (not q and st['ids'] not in ('plain', 'punct', 'nonascii')):
+        if (q and k % 3) or (not q and (st['ids'] not in ('plain', 'punct') or k % 2)):
             continue
         yield st
 
@@ -481,7 +500,7 @@ def hdf5_cases(tier, seed=0):
     for st in _states(tier, seed):
         for axis in U.AXES:
             k += 1
-            yield dict(st, axis=axis, rseed=k, compress=bool(k % 2))
+            yield dict(st, axis=axis, rseed=k + 7919 * int(seed), compress=bool(k % 2))
 
 
 def json_cases(tier, seed=0):
@@ -489,7 +508,7 @@ def json_cases(tier, seed=0):
     for st in _states(tier, seed):
         for axis in U.AXES:
             k += 1
-            yield dict(st, axis=axis, rseed=k)
+            yield dict(st, axis=axis, rseed=k + 7919 * int(seed))
     # table ids that contain JSON punctuation
     for axis in U.AXES:
         yield {'A': U.RICH_BASE[0], 'table_id': 'comma', 'axis': axis}
@@ -518,9 +537,9 @@ def run(rep):
         states = ('every matrix over {0,1,2} up to 2x2 %s, value-stress matrices x layouts, %s random '
                   'tables up to %s, ID alphabets x metadata kinds (%s), header/group-metadata states, tables left by '
                   'public operations (%s)' % ('(layout and stored-zero mode rotated over the matrices)' if q else
-                                              '(+ 2x3, 3x2, 3x3 over {0,1}) x layouts x stored zeros none/one/all',
+                                              'x layouts x stored zeros none/one/all (+ every 2x3, 3x2 over {0,1,2} and 3x3 over {0,1}, rotated)',
                                               '24' if q else '560', '3x3' if q else '6x6',
-                                              'every 4th' if q else 'all', 'every 3rd' if q else 'all, 3 alphabets'))
+                                              'every 4th' if q else 'all', 'every 3rd' if q else 'every 2nd, 2 alphabets'))
         reqs = ('both axes x every non-empty subset in every order (axes up to 3 IDs; larger: singletons, all '
                 'ascending/descending, 8 seeded random ordered subsets)')
         rt.run_scope(rep, 'hdf5-subset', 'files written by to_hdf5: %s x %s x {from_hdf5, from_hdf5 without metadata, '
